@@ -902,6 +902,18 @@ def check_simplex_model(ctx, simplex, systems, label):
                 qs.append(["le", [[100 + i, -c] for i, c in enumerate(r[:-1]) if c != 0], r[-1]])
         lines.append(sexp.dumps(["simplex", SIMPLEX_FUEL, qs]))
     out = ctx.lean_driver(EXE, lines) if lines else []
+    # monitor of the one hypothesis the termination theorem still assumes (BlandNoRepeat): on the model,
+    # which is compared with the real code step by step here, no configuration repeats within a check()
+    mon = ctx.lean_driver(EXE, [l.replace("(simplex ", "(norepeat ", 1) for l in lines]) if lines else []
+    if mon is not None:
+        for (rows, enc, _), ml in zip(runs, mon):
+            x = sexp.loads(ml)
+            if x == "bad-op":
+                continue
+            ctx.count("bland:no-repeat-checked")
+            ctx.coverage["bland_max_pivots_in_one_check"] = max(ctx.coverage.get("bland_max_pivots_in_one_check", 0), int(x[1]))
+            if x[0] != "T":
+                ctx.broken("hypothesis:c16:BlandNoRepeat", "a configuration repeats within one check() of the model on rows=%s enc=%s" % (rows, enc))
     ndis = 0
     for idx, (rows, enc, (outcome, atoms, init, snaps)) in enumerate(runs):
         nv = len(rows[0]) - 1
